@@ -135,7 +135,8 @@ class TokenParser(Parser):
 
         factory = self.cstruct._make_flag if enumtype == "flag" else self.cstruct._make_enum
 
-        enum = factory(d["name"] or "", self.cstruct.resolve(d["type"]), values)
+        # A multi-word base type (unsigned int) is known by its words joined with a single space
+        enum = factory(d["name"] or "", self.cstruct.resolve(" ".join(d["type"].split())), values)
         if not enum.__name__:
             self.cstruct.consts.update(enum.__members__)
         else:
